@@ -178,9 +178,11 @@ struct Exec {
     results: Vec<Vec<Res>>,
     /// per thread, per completed operation: (first step index, last step index)
     spans: Vec<Vec<(usize, usize)>>,
+    /// per thread, per completed operation: the indices of all its steps
+    op_steps: Vec<Vec<Vec<usize>>>,
     lists: Vec<Option<Vec<u64>>>,
     /// site names of schedule points at which `O` / `S` were reported
-    sites: Vec<(char, String)>,
+    sites: Vec<(usize, char, String)>,
 }
 
 impl Exec {
@@ -322,8 +324,9 @@ fn exec(case: &Case, prefix: &[usize], extend: bool) -> Exec {
         );
     }
     drop(shared); // strong count of every list = number of threads
-    let mut ex = Exec { spans: vec![vec![]; n], ..Default::default() };
+    let mut ex = Exec { spans: vec![vec![]; n], op_steps: vec![vec![]; n], ..Default::default() };
     let mut first_step: Vec<Option<usize>> = vec![None; n];
+    let mut cur_steps: Vec<Vec<usize>> = vec![vec![]; n];
     let mut completed: Vec<usize> = vec![0; n];
     if !session.wait_quiescent(STEP_LIMIT) {
         ex.end = "hung".into();
@@ -368,8 +371,8 @@ fn exec(case: &Case, prefix: &[usize], extend: bool) -> Exec {
         let letters: String = evs.iter().map(ev_letter).collect();
         for e in &evs {
             match e {
-                hk::Event::PtrOutsideLock { site, .. } => ex.sites.push(('O', site.to_string())),
-                hk::Event::PtrUse { stale: true, .. } => ex.sites.push(('S', site.clone())),
+                hk::Event::PtrOutsideLock { site, .. } => ex.sites.push((k, 'O', site.to_string())),
+                hk::Event::PtrUse { stale: true, .. } => ex.sites.push((k, 'S', site.clone())),
                 _ => {}
             }
         }
@@ -379,10 +382,12 @@ fn exec(case: &Case, prefix: &[usize], extend: bool) -> Exec {
         if first_step[t].is_none() {
             first_step[t] = Some(k);
         }
+        cur_steps[t].push(k);
         // operations completed by this step
         let now = done.lock().unwrap()[t].len();
         while completed[t] < now {
             ex.spans[t].push((first_step[t].unwrap_or(k), k));
+            ex.op_steps[t].push(std::mem::take(&mut cur_steps[t]));
             completed[t] += 1;
             first_step[t] = None;
         }
@@ -507,6 +512,46 @@ fn linearizable(case: &Case, ex: &Exec) -> bool {
     go(case, ex, &mut vec![0; case.progs.len()], &mut case.lists.clone())
 }
 
+/// Replay the schedule on the sequential specification with every operation
+/// taking effect at its last step, except that `concat` reads its first
+/// operand at its second step (where the implementation copies it) and its
+/// second operand at its last step. True if that explains every result and
+/// the final lists: the only departure from atomicity is `concat` reading its
+/// operands in two critical sections.
+fn explained_by_two_section_concat(case: &Case, ex: &Exec) -> bool {
+    let n = case.progs.len();
+    let mut lists = case.lists.clone();
+    let mut snap: Vec<Option<Vec<u64>>> = vec![None; n];
+    for k in 0..ex.sched.len() {
+        let t = ex.sched[k];
+        let Some(i) = ex.op_steps[t].iter().position(|st| st.contains(&k)) else {
+            return false;
+        };
+        let op = &case.progs[t][i];
+        let st = &ex.op_steps[t][i];
+        if let Op::Concat(a, b) = op {
+            if st.len() != 3 {
+                return false;
+            }
+            if k == st[1] {
+                snap[t] = Some(lists[*a].clone());
+            }
+            if k == st[2] {
+                let mut v = snap[t].take().unwrap_or_default();
+                v.extend_from_slice(&lists[*b]);
+                if Res::List(v) != ex.results[t][i] {
+                    return false;
+                }
+            }
+            continue;
+        }
+        if k == *st.last().unwrap() && spec_op(&mut lists, op) != ex.results[t][i] {
+            return false;
+        }
+    }
+    lists.iter().zip(&ex.lists).all(|(a, b)| b.as_ref().map(|b| a == b).unwrap_or(true))
+}
+
 fn replay_json(case: &Case, ex: &Exec) -> serde_json::Value {
     json!({"lists": case.lists_text(), "progs": case.progs_text(), "sched": ex.sched_text(), "observed": ex.obs()})
 }
@@ -528,7 +573,7 @@ fn judge(case: &Case, ex: &Exec, rep: &mut Report) {
     for (k, (t, letters, _)) in ex.steps.iter().enumerate() {
         let opk = op_at(case, ex, *t, k).map(|o| o.kind()).unwrap_or("?");
         if letters.contains('S') {
-            let site = ex.sites.iter().find(|s| s.0 == 'S').map(|s| s.1.clone()).unwrap_or_default();
+            let site = ex.sites.iter().find(|s| s.0 == k && s.1 == 'S').map(|s| s.2.clone()).unwrap_or_default();
             rep.violation(
                 "an element was read through a pointer obtained before another thread's push reallocated the buffer (use after free)",
                 &format!("stale-pointer-use {opk} at {site}"),
@@ -536,7 +581,7 @@ fn judge(case: &Case, ex: &Exec, rep: &mut Report) {
             );
         }
         if letters.contains('O') {
-            let site = ex.sites.iter().find(|s| s.0 == 'O').map(|s| s.1.clone()).unwrap_or_default();
+            let site = ex.sites.iter().find(|s| s.0 == k && s.1 == 'O').map(|s| s.2.clone()).unwrap_or_default();
             rep.violation(
                 "an element pointer is held across a schedule point while the list's mutex is free (it outlives its critical section)",
                 &format!("pointer-outside-lock {opk} at {site}"),
@@ -563,12 +608,14 @@ fn judge(case: &Case, ex: &Exec, rep: &mut Report) {
         ),
         "ok" => {
             if !linearizable(case, ex) {
-                // name the culprit: the multi-section operations present
-                let mut kinds: Vec<&str> =
-                    case.progs.iter().flatten().map(|o| o.kind()).filter(|k| k.starts_with("concat")).collect();
-                kinds.sort();
-                kinds.dedup();
-                let who = if kinds.is_empty() { "no-concat".to_string() } else { kinds.join("+") };
+                let who = if explained_by_two_section_concat(case, ex) {
+                    "concat-two-critical-sections".to_string()
+                } else {
+                    let mut kinds: Vec<&str> = case.progs.iter().flatten().map(|o| o.kind()).collect();
+                    kinds.sort();
+                    kinds.dedup();
+                    format!("other {}", kinds.join("+"))
+                };
                 rep.violation(
                     "the results of this schedule are not those of any sequential order of the operations that respects real-time order",
                     &format!("not-linearizable {who}"),
